@@ -371,6 +371,67 @@ fn constructors() -> Result<u64, (String, String)> {
 
 /// IMF-fixdate of a Unix time, computed here from first principles (days-to-civil), so that
 /// the Date header is compared with something that shares no code with the library.
+/// Headers through the channel of `Response::new`, produced while the constructor runs: `k`
+/// of them are in the channel beforehand, the others are sent by another thread 30 ms (real
+/// time) after the constructor was called, one by one or with pauses, and the sender is
+/// dropped only then. The constructor's documented behaviour is to take every header that
+/// the channel yields, so the printed response carries them all, in order, whatever the timing.
+fn channel_timing() -> Result<u64, (String, String)> {
+    let names = [("X-A", "1"), ("ETag", "\"v7\""), ("X-B", "2"), ("Content-Type", "text/x"), ("X-A", "3")];
+    let hdr = |p: &(&str, &str)| Header::from_bytes(p.0.as_bytes(), p.1.as_bytes()).unwrap();
+    let mut n = 0;
+    for len in 1..=names.len() {
+        for k in 0..=len {
+            for pause_ms in [0u64, 10] {
+                if k == len && pause_ms > 0 {
+                    continue;
+                }
+                let (tx, rx) = std::sync::mpsc::channel();
+                for p in &names[..k] {
+                    let _ = tx.send(hdr(p));
+                }
+                let late: Vec<Header> = names[k..len].iter().map(hdr).collect();
+                let producer = std::thread::spawn(move || {
+                    if !late.is_empty() {
+                        std::thread::sleep(std::time::Duration::from_millis(30));
+                    }
+                    for h in late {
+                        let _ = tx.send(h);
+                        if pause_ms > 0 {
+                            std::thread::sleep(std::time::Duration::from_millis(pause_ms));
+                        }
+                    }
+                    drop(tx);
+                });
+                let resp = Response::new(StatusCode(200), vec![], Cursor::new(b"abcde".to_vec()), Some(5), Some(rx));
+                let _ = producer.join();
+                let mut out = Vec::new();
+                resp.raw_print(&mut out, HTTPVersion(1, 1), &[], false, None).map_err(|e| ("io-error".to_string(), e.to_string()))?;
+                let m = crate::httpparse::parse_one(&out, 0, false).map_err(|e| ("malformed".to_string(), format!("{} at {}", e.what, e.at)))?;
+                let supplied: Vec<(String, String)> = names[..len].iter().map(|(a, b)| (a.to_string(), b.to_string())).collect();
+                let want = reference(&supplied);
+                let got: Vec<(String, String)> = m
+                    .headers
+                    .iter()
+                    .filter(|(h, _)| want.iter().any(|(w, _)| w.eq_ignore_ascii_case(h)) || h.eq_ignore_ascii_case("etag") || h.to_ascii_lowercase().starts_with("x-"))
+                    .cloned()
+                    .collect();
+                if got != want {
+                    return Err((
+                        "channel-late-producer".into(),
+                        format!(
+                            "{} header(s) through the channel of Response::new, {} queued beforehand, the others sent by another thread while the constructor runs (sender dropped afterwards): printed {:?}, supplied {:?}",
+                            len, k, got, want
+                        ),
+                    ));
+                }
+                n += 1;
+            }
+        }
+    }
+    Ok(n)
+}
+
 pub fn imf_fixdate(secs: u64) -> String {
     let days = (secs / 86400) as i64;
     let rem = secs % 86400;
@@ -503,6 +564,14 @@ impl Check for C19 {
                 }
                 Err((k, d)) => acc.violation(&k, d, json!({"constructors": true})),
             }
+            match channel_timing() {
+                Ok(n) => {
+                    acc.evals += n;
+                    acc.nontrivial += n;
+                    acc.count("channel_producer_timings", n);
+                }
+                Err((k, d)) => acc.violation(&k, d, json!({"constructors": true})),
+            }
             match dates() {
                 Ok(n) => {
                     acc.evals += n;
@@ -522,7 +591,7 @@ impl Check for C19 {
     }
     fn rule(&self, tier: Tier) -> String {
         format!(
-            "the Date header with the wall clock (hook H6) moved to one instant on every day of 2024-2028, to 2000-02-29 / 2038-01-19 / 2100-03-01 / 9999-12-31, and stepped on one thread over second, minute, hour, day, month and year boundaries (compared with an IMF-fixdate computed from first principles); entry points: constructor list, add_header, with_header, a mix, and the channel argument of Response::new (quick: lists shorter than the maximal length); 1000 application headers through each entry point (order and multiplicity), from_string of 1 MiB + 1; all header lists of length 0..{} over {} atoms (Connection, Trailer, Transfer-Encoding, Upgrade, Content-Length valid/invalid, Content-Type x4, Date, Server, X-A x3, X-B; canonical/lower/upper case names) x 4 ways of supplying them (constructor, add_header, with_header, mixed) = {} responses, printed and compared with the reference header policy; plus the constructor cases (from_string ASCII/2-byte/4-byte UTF-8/70000 bytes, from_data, from_file 0/5/70000 bytes, empty, with_data); non-trivial = non-empty list",
+            "the Date header with the wall clock (hook H6) moved to one instant on every day of 2024-2028, to 2000-02-29 / 2038-01-19 / 2100-03-01 / 9999-12-31, and stepped on one thread over second, minute, hour, day, month and year boundaries (compared with an IMF-fixdate computed from first principles); entry points: constructor list, add_header, with_header, a mix, and the channel argument of Response::new (quick: lists shorter than the maximal length; also with 1..5 headers of which 0..all are queued beforehand and the others are sent by a second thread 30 ms after the constructor was entered, back to back or 10 ms apart, the sender dropped last: all of them are printed); 1000 application headers through each entry point (order and multiplicity), from_string of 1 MiB + 1; all header lists of length 0..{} over {} atoms (Connection, Trailer, Transfer-Encoding, Upgrade, Content-Length valid/invalid, Content-Type x4, Date, Server, X-A x3, X-B; canonical/lower/upper case names) x 4 ways of supplying them (constructor, add_header, with_header, mixed) = {} responses, printed and compared with the reference header policy; plus the constructor cases (from_string ASCII/2-byte/4-byte UTF-8/70000 bytes, from_data, from_file 0/5/70000 bytes, empty, with_data); non-trivial = non-empty list",
             max_len(tier), atoms().len(), n_lists(tier) * 5
         )
     }
